@@ -9,24 +9,31 @@ pub const KINDS: usize = 15;
 
 /// `(tag, items)`; `items` goes inside the bridge module
 pub fn extras(rng: &mut Rng, m: &Module, option: bool) -> (String, String) {
-    extras_with(rng, m, option, None)
+    extras_with(rng, m, option, &[])
 }
 
-/// as `extras`, the first snippet being of kind `forced` (so that a run of `KINDS` modules meets every kind)
-pub fn extras_with(rng: &mut Rng, m: &Module, option: bool, forced: Option<usize>) -> (String, String) {
+/// as `extras`, the first snippets being of the kinds `forced` (so that a run meets every kind on every backend)
+pub fn extras_with(rng: &mut Rng, m: &Module, option: bool, forced: &[usize]) -> (String, String) {
     let opaque = m.types.iter().find(|t| matches!(t.def, Def::Opaque)).map(|t| t.name.clone()).unwrap_or("OpA".into());
     let enm = m.types.iter().find(|t| matches!(t.def, Def::Enum { .. })).map(|t| t.name.clone());
-    let n = 1 + rng.below(3);
+    let n = (1 + rng.below(3)).max(forced.len());
     let mut items: Vec<(&'static str, String)> = vec![];
     for j in 0..n {
         let r = rng.below(KINDS);
-        let k = match forced { Some(f) if j == 0 => f % KINDS, _ => r };
+        let k = forced.get(j).map(|f| f % KINDS).unwrap_or(r);
         let (tag, chunk) = snippet(rng, k, &opaque, enm.as_deref(), option);
         if !items.iter().any(|(t, _)| *t == tag) {
             items.push((tag, chunk));
         }
     }
     (items.iter().map(|(t, _)| *t).collect::<Vec<_>>().join("+"), items.iter().map(|(_, c)| c.as_str()).collect())
+}
+
+/// exactly one snippet of kind `k`
+pub fn extras_only(rng: &mut Rng, m: &Module, option: bool, k: usize) -> Option<(&'static str, String)> {
+    let opaque = m.types.iter().find(|t| matches!(t.def, Def::Opaque)).map(|t| t.name.clone()).unwrap_or("OpA".into());
+    let enm = m.types.iter().find(|t| matches!(t.def, Def::Enum { .. })).map(|t| t.name.clone());
+    Some(snippet(rng, k % KINDS, &opaque, enm.as_deref(), option))
 }
 
 pub fn snippet(rng: &mut Rng, k: usize, opaque: &str, enm: Option<&str>, option: bool) -> (&'static str, String) {
